@@ -14,18 +14,20 @@ import (
 // stanzas received on the stream-managed session.
 
 type c09Part struct {
-	Inbound []InEl `json:"inbound"`
-	Cut     bool   `json:"cut_then_resume"`
-	CutAt   int64  `json:"cut_at"`
-	CutKind string `json:"cut_kind"`
+	ResumeReply string `json:"resume_reply,omitempty"` // how the server answers <resume/> on this connection: ok | failed
+	Inbound     []InEl `json:"inbound"`
+	Cut         bool   `json:"cut_then_resume"`
+	CutAt       int64  `json:"cut_at"`
+	CutKind     string `json:"cut_kind"`
 }
 
 type c09Scenario struct {
-	Client    ClientOpts `json:"client"`
-	Parts     []c09Part  `json:"parts"`
-	Seg       int        `json:"segmentation"`
-	LatencyNs int64      `json:"latency_ns"`
-	Dawdle    int        `json:"handler_dawdle"`
+	EnableNoResume bool       `json:"enabled_without_resume"`
+	Client         ClientOpts `json:"client"`
+	Parts          []c09Part  `json:"parts"`
+	Seg            int        `json:"segmentation"`
+	LatencyNs      int64      `json:"latency_ns"`
+	Dawdle         int        `json:"handler_dawdle"`
 }
 
 func init() {
@@ -48,7 +50,12 @@ func runC09(e *Engine, g G, o RunOpt) RunInfo {
 		e.Net.Latency = time.Duration(sc.LatencyNs)
 	}
 	sc.Dawdle = g.N("dawdle", 3)
+	sc.EnableNoResume = g.Pct("noresume", 15)
 	nparts := 1 + g.Weighted("resumptions", 5, 3, 1, 1)
+	if sc.EnableNoResume {
+		// the library gives up on resumption when the server does not grant it
+		nparts = 1
+	}
 	idn := 0
 	for p := 0; p < nparts; p++ {
 		n := 0
@@ -60,7 +67,10 @@ func runC09(e *Engine, g G, o RunOpt) RunInfo {
 		default:
 			n = g.Range("n", 25, 80)
 		}
-		part := c09Part{}
+		part := c09Part{ResumeReply: "ok"}
+		if p > 0 && g.Pct("resume-refused", 30) {
+			part.ResumeReply = "failed"
+		}
 		part.Inbound = GenInbound(g, n, InboundOpts{AllowR: true, AllowA: true, MaxA: 3, AllowIQReq: true, AllowNested: true, AllowSpace: true, AllowEntity: true, IDPrefix: fmt.Sprintf("p%d-", p)})
 		// sprinkle other non-stanza elements
 		for i := range part.Inbound {
@@ -84,6 +94,19 @@ func runC09(e *Engine, g G, o RunOpt) RunInfo {
 	}
 	script := DefaultNeg()
 	script.SM = true
+	if sc.EnableNoResume {
+		script.Enable = EnableNoResume
+	}
+	scripts := []NegScript{script}
+	for i := 1; i < len(sc.Parts); i++ {
+		s2 := DefaultNeg()
+		s2.SM = true
+		s2.SMId = fmt.Sprintf("sm-%d", i+1)
+		if sc.Parts[i].ResumeReply == "failed" {
+			s2.Resume = ResumeFailed
+		}
+		scripts = append(scripts, s2)
+	}
 
 	established := false
 	var srv *Server
@@ -97,9 +120,10 @@ func runC09(e *Engine, g G, o RunOpt) RunInfo {
 		readEnd  int64
 	}
 	var pcs []*perConn
+	var resumeH []int // expected h of the <resume/> on connection i+1
 
 	e.Run(func() {
-		s, ok := StartClient(e, sc.Client, []NegScript{script}, func(cw *CW, sv *Server) {
+		s, ok := StartClient(e, sc.Client, scripts, func(cw *CW, sv *Server) {
 			cw.Dawdle = sc.Dawdle
 			cw.CatchAll()
 		})
@@ -157,6 +181,11 @@ func runC09(e *Engine, g G, o RunOpt) RunInfo {
 			}
 			conn = srv.Conns[len(srv.Conns)-1]
 			e.Sleep(100 * time.Millisecond)
+			resumeH = append(resumeH, count)
+			if conn.Established == "bound" {
+				// the resumption was refused and a new stream-managed session enabled: counting restarts
+				count = 0
+			}
 		}
 	})
 
@@ -204,8 +233,9 @@ func runC09(e *Engine, g G, o RunOpt) RunInfo {
 			if el.Is(nsSM, "resume") && ci > 0 {
 				h, _ := strconv.Atoi(el.Attr("h"))
 				checked++
-				if h != pc.startCnt {
-					e.Violate("C09", "resume-h-"+cmp3(h, pc.startCnt), "connection #%d: <resume h='%d'/> but %d stanzas were completely received on the session before the loss", ci, h, pc.startCnt)
+				want := resumeH[ci-1]
+				if h != want {
+					e.Violate("C09", "resume-h-"+cmp3(h, want), "connection #%d: <resume h='%d'/> but %d stanzas were completely received on the session before the loss", ci, h, want)
 				}
 				e.Probe("c09.resume_checked")
 			}
